@@ -130,9 +130,13 @@ func buildW(c wCase, r *rand.Rand) *astisub.Subtitles {
 			Comments:    []string{"a comment"},
 			Lines: []astisub.Line{{VoiceName: "V", Items: []astisub.LineItem{{Text: "Hello"}, {Text: " world", InlineStyle: &astisub.StyleAttributes{SRTBold: true, STLItalics: bp2(true),
 				WebVTTTags: []astisub.WebVTTTag{{Name: "b"}}, SSAEffect: `{\i1}`}}}}, {Items: []astisub.LineItem{{Text: "second line"}}}}}
-		if len(c.Styles) > 0 {
+		if len(c.Styles) > 0 && k != 2 {
+			// the third cue has no style of its own (though its region may have one)
 			it.Style = s.Styles[styleName(c, k%len(c.Styles))]
 			it.Lines[0].Items[0].Style = s.Styles[styleName(c, 0)]
+		}
+		if k == 1 {
+			it.InlineStyle = nil // a cue without any inline attribute
 		}
 		if len(c.Regions) > 0 {
 			it.Region = s.Regions["r"+strconv.Itoa(k%len(c.Regions)+1)]
@@ -250,6 +254,17 @@ func cmdWriters(args []string) error {
 			// the same list built again with another insertion order of the maps
 			s2 := buildW(c, r)
 			emit(list, f, "rebuilt", s2, project.Digest(s2))
+		}
+		if !c.Meta {
+			// no metadata: the STL dates come from the injectable clock, and from nothing else - the same list
+			// written under another injected clock, but with that clock's former date supplied as metadata, gives the
+			// same bytes
+			s3 := buildW(c, r)
+			cd, rd := fixed, fixed
+			s3.Metadata = &astisub.Metadata{STLCreationDate: &cd, STLRevisionDate: &rd}
+			astisub.Now = func() time.Time { return fixed.Add(1000 * time.Hour) }
+			emit(list, "stl", "clock-default", s3, project.Digest(s3))
+			astisub.Now = func() time.Time { return fixed }
 		}
 		if c.Meta {
 			// the metadata supplies the STL dates: another clock must not change the bytes
